@@ -49,7 +49,7 @@ def run(rep):
         rep.lost("T-SERDE-OUT", "T-SERDE-OUT/anchor", "derived Serialize impls of Detection and Rule")
     else:
         s = show(ds.body)
-        want = ("{let $__serde_state = Serializer::serialize_map(__serializer, Option::None)?; SerializeMap::serialize_entry(__serde_state, condition, self.expression_raw)?; "
+        want = ("{let $__serde_state = Serializer::serialize_map(__serializer, Option::None)?; SerializeMap::serialize_entry(__serde_state, \"condition\", self.expression_raw)?; "
                 "Serialize::serialize(self.identifiers_raw, FlatMapSerializer::FlatMapSerializer(__serde_state))?; SerializeMap::end(__serde_state)}")
         rep.check(s == want, "T-SERDE-OUT", "T-SERDE-OUT/detection", ds.sp, "Detection emits `condition: <raw text>` plus the raw identifiers flattened, nothing else, unconditionally", s[:200])
         fields = [(lit(n["args"][1])[1] if lit(n["args"][1]) else "?", show(n["args"][2])) for n in walk(rs.body) if call_is(n, "SerializeStruct::serialize_field")]
@@ -74,7 +74,7 @@ def run(rep):
         rep.check(table == {"optimised": "Result::Ok(__Field::__field0)", "detection": "Result::Ok(__Field::__field1)", "true_positives": "Result::Ok(__Field::__field2)", "true_negatives": "Result::Ok(__Field::__field3)"},
                   "T-SERDE-IN", "T-SERDE-IN/rule-keys", fv[0].sp, "Rule consumes exactly the keys it emits", str(table))
         s = show(vmr[0].body)
-        missing = re.findall(r"missing_field\((\w+)\)", s)
+        missing = re.findall(r'missing_field\("(\w+)"\)', s)
         rep.check(sorted(missing) == ["detection", "true_negatives", "true_positives"], "T-SERDE-IN", "T-SERDE-IN/rule-required", vmr[0].sp, "detection and both example lists are required; optimised defaults", str(missing))
         rep.check("Option::None => Default::default()" in s, "T-SERDE-IN", "T-SERDE-IN/rule-default", vmr[0].sp, "an absent `optimised` is false", "")
     # ---- Detection.visit_map
@@ -93,7 +93,7 @@ def run(rep):
             rep.check(names == ["condition", "_"], "T-SERDE-IN", "T-SERDE-IN/detection-keys", km[0]["sp"], "`condition` is the condition text; every other key is an identifier", str(names))
             if names == ["condition", "_"]:
                 c = show(arms[0]["body"])
-                rep.check(c == "{if <T>::is_some(expression) {return Result::Err(Error::duplicate_field(condition))}; expression = Option::Some(MapAccess::next_value(map)?)}", "RAW=PARSED", "RAW=PARSED/condition-arm", arms[0]["sp"],
+                rep.check(c == "{if <T>::is_some(expression) {return Result::Err(Error::duplicate_field(\"condition\"))}; expression = Option::Some(MapAccess::next_value(map)?)}", "RAW=PARSED", "RAW=PARSED/condition-arm", arms[0]["sp"],
                           "the condition value is stored once (duplicate rejected)", c[:120])
                 o = arms[1]["body"]
                 so = show(o)
